@@ -1724,12 +1724,12 @@ run_stream_session(victim *v, plan *pl, vf_rng *r, bool do_new, bool do_spin)
 enum {
 	WX_NONE = 0, WX_UNMASKED, WX_RSV, WX_OPCODE_BAD, WX_TEXT, WX_PING_BEFORE, WX_PING_BIG, WX_PING_FRAG,
 	WX_CONT_NOSTART, WX_BIN_IN_MSG, WX_CLOSE_BEFORE, WX_NONMIN16, WX_NONMIN64, WX_LEN63, WX_LEN_OVER_NODATA,
-	WX_FRAG2, WX_FRAG3, WX_FRAG_EMPTY, WX_PONG_UNSOL, WX_N
+	WX_FRAG2, WX_FRAG3, WX_FRAG_EMPTY, WX_PONG_UNSOL, WX_FRAG_OVER, WX_N
 };
 static const char *wxnames[WX_N] = {
 	"", "ws-unmasked", "ws-rsv", "ws-opcode-bad", "ws-text", "ws-ping-before", "ws-ping-126", "ws-ping-fragmented",
 	"ws-cont-nostart", "ws-binary-in-message", "ws-close-before", "ws-len16-nonminimal", "ws-len64-nonminimal", "ws-len-2^63", "ws-len-over-nodata",
-	"ws-frag2", "ws-frag3", "ws-frag-empty", "ws-pong-unsolicited",
+	"ws-frag2", "ws-frag3", "ws-frag-empty", "ws-pong-unsolicited", "ws-frag-oversize",
 };
 enum {
 	HX_NONE = 0, HX_PATH, HX_METHOD, HX_HTTP10, HX_NOUPGRADE, HX_NOKEY, HX_VERSION, HX_SUBPROTO_WRONG, HX_SUBPROTO_NONE,
@@ -1876,6 +1876,23 @@ render_ws_frames(const victim *v, const plan *pl, uint32_t serial, uint32_t id, 
 				size_t n = k == parts - 1 ? pay.n - at : (f->x_kind == WX_FRAG_EMPTY ? 0 : vf_below(r, (uint32_t) (pay.n - at) + 1));
 				ws_put_frame(out, k == parts - 1, 0, k == 0 ? 2 : 0, true, 0, pay.p + at, n, n, false, r);
 				at += n;
+			}
+			break;
+		}
+		case WX_FRAG_OVER: {
+			// a message above the limit made of fragments that each fit,
+			// later ones smaller than earlier ones (every per-frame
+			// view of the size looks harmless; only the sum is too big)
+			size_t lim = v->recvmax ? (size_t) v->recvmax : pay.n;
+			size_t at = 0, n = lim - vf_below(r, (uint32_t) (lim / 4) + 1);
+			bool   first = true;
+			if (n > pay.n) n = pay.n;
+			while (at < pay.n) {
+				if (n > pay.n - at) n = pay.n - at;
+				ws_put_frame(out, at + n == pay.n, 0, first ? 2 : 0, true, 0, pay.p + at, n, n, false, r);
+				at += n;
+				first = false;
+				if (vf_chance(r, 1, 2) && pay.n - at > 1) n = (pay.n - at + 1) / 2 + vf_below(r, (uint32_t) ((pay.n - at) / 2));
 			}
 			break;
 		}
@@ -2406,6 +2423,12 @@ pick_plan(victim *v, plan *pl, vf_rng *r)
 				}
 				if (f->x_kind == WX_LEN63) {
 					f->x_arg = vf_below(r, 1000);
+					pl->nfr  = j + 1;
+				}
+				if (f->x_kind == WX_FRAG_OVER) {
+					if (!v->recvmax) continue;
+					f->blen  = (size_t) v->recvmax + 1 + vf_below(r, (uint32_t) (v->recvmax / 2));
+					f->body7 = false;
 					pl->nfr  = j + 1;
 				}
 				snprintf(pl->mut, sizeof(pl->mut), "%s", wxnames[f->x_kind]);
